@@ -12,6 +12,7 @@ package verifrt
 import (
 	"encoding/hex"
 	"fmt"
+	"sync"
 )
 
 // Case is one recorded execution: input values in call order, configuration
@@ -153,3 +154,14 @@ type Err struct{ Tag string }
 func (e *Err) Error() string { return "verifrt error " + e.Tag }
 
 func ErrValue(tag string) error { return &Err{tag} }
+
+// Parallel runs two instance workloads. Under the symbolic executor they run
+// one after the other while read/write footprints are recorded per workload;
+// natively they run concurrently (use go test -race).
+func Parallel(a, b func()) {
+	var wg sync.WaitGroup
+	wg.Add(2)
+	go func() { defer wg.Done(); a() }()
+	go func() { defer wg.Done(); b() }()
+	wg.Wait()
+}
